@@ -12,8 +12,8 @@ every PDU type x every field at boundary values, truncated, oversized, random ga
 nested lengths at the boundaries, transport errors at every byte offset; each stream under three or more
 chunkings (one read, byte by byte, random), which must agree with each other (modulo read sizes) and with
 the model line by line.  A sanitizer report, assertion failure or wall-clock timeout is a violation with the
-stream as replay.  Non-zero host bits in prefixes (not rejected by the code, outside the trie theorems'
-precondition) are exercised through the RTR path and through harness/pfx_ops.c."""
+stream as replay.  Prefixes with bits set behind their length are part of the streams (rejected since the
+deep-chain fix; corpus/C04/30-*, 31-* are the streams that aborted the client before it)."""
 import collections
 import json
 import os
@@ -30,7 +30,7 @@ THEOREMS = ["C04_recv_contract", "C04_recv_all_exact", "C04_fuel_store_loop", "C
             "C04_chunking_recv_all", "C04_chunking_receive_pdu", "C04_chunking_sync", "C04_chunking_step", "C04_chunking_run",
             "C04_accepted", "C04_buffer", "C04_check_size_local", "C04_consumers_local", "C04_receive_frame",
             "C04_reject_length", "C04_reject_size", "C04_unknown_type", "C04_size_per_type", "C04_store_loop_fails",
-            "C04_sync_fails", "C04_step_fails", "C04_stored_prefix", "C04_check_size_translated",
+            "C04_sync_fails", "C04_step_fails", "C04_stored_prefix", "C04_stored_prefix_key_ok", "C04_check_size_translated",
             "C04_check_size_reads_inside"]
 CORPUS = os.path.join(vlib.VERIF, "corpus", "C04")
 MAX = L.MAX
@@ -207,7 +207,7 @@ def streams(rnd, tier):
             pre, post = context(1, ph)
             flood = bytes(rnd.randrange(256) for _ in range(rnd.choice([4000, 9000])))
             out.append(("oversized flood after len %d in %s" % (ln, ph), pre + [("data", R.hdr(1, 4, 0, ln) + flood)]))
-    # prefixes with non-zero host bits (not rejected; outside the precondition of the trie theorems)
+    # prefixes with non-zero host bits (rejected with Corrupt Data; accepted before the deep-chain fix)
     for i in range(20 if tier == "quick" else 300):
         ver = 1
         items = []
@@ -356,24 +356,18 @@ def run(chk):
         if fnd and (found < 5 or (fnd["key"] == "crash" and ncrash < 3)):
             ncrash += fnd["key"] == "crash"
             report(fnd, lines, impl, {"stream": desc})
-    hb, hb_lines = hostbits_table_stress(rnd, 100 if quick else 3000)
-    if hb:
-        found += 1
-        chk.violation({"kind": hb["kind"], "finding": hb, "pfx_ops_script": hb_lines,
-                       "replay_cmd": "build/bin/pfx_ops < (the lines of pfx_ops_script)"}, key=hb["key"])
     chk.cov.update({
         "evaluations": nrun, "distinct_nontrivial": nstream,
         "rule": "evaluation = one script (one chunking of one stream) run on the real code under ASan+UBSan+asserts and on the "
                 "extracted model, traces compared line by line; non-trivial = distinct streams, each run under %d chunkings whose "
                 "Impl traces must agree modulo read sizes" % len(modes),
         "chunkings": modes, "streams": nstream, "stream_kinds": dict(kinds),
-        "pfx_table_histories_with_nonzero_host_bits": 100 if quick else 3000,
         "samples": samples,
         "tie": "(b) real state machine vs extracted model, every trace line; plus agreement of the chunkings among themselves",
         "observations": [
-            "prefix PDUs with non-zero host bits are accepted and stored; the trie keeps records that agree in their first len bits "
-            "but differ in host bits as separate nodes of the same length (outside key_ok, the precondition of the C01/C02 theorems); "
-            "no assertion failure, sanitizer report or hang was found on the real code (replay: corpus/C04/20-host-bits.pfx_ops)",
+            "prefix PDUs with a bit set behind the prefix length are rejected (Corrupt Data) since the /repo fix recorded in "
+            "known_findings.jsonl (key deep-chain): before it 130 such prefixes chained trie nodes deeper than the address has bits "
+            "and the next insertion aborted (corpus/C04/30-deep-chain-v6.txt, 31-deep-chain-v4.txt)",
             "after an unexpected protocol version the client sends the report but neither closes nor changes state: it goes on reading "
             "in the middle of the offending PDU and reports the follow-up garbage as well",
         ],
